@@ -131,6 +131,13 @@ APP_EXAMPLE = [600,
                [[[49]], [[51]]], [], 0, [[0, [3, 0, 0]], [1]]]
 APP_EXAMPLE_KEY_EVENTS = [[3, [1, 1]], [7, [1, 0]], [8, [1, 1]], [10, [1, 1]], [3, [0, 0]], [7, [0, 0]], [8, [0, 0]]]
 
+# Regression sessions for the classifier (not part of the Coq witnesses): (expected key, case).
+# 1. ExitMainLoop raised under a process_signals() called from OUTSIDE run(): same events on both loops, only the outcome of
+#    that top-level call differs (MainLoop: the exception escapes, GLibEventLoop: swallowed) — an instance of F9(c').
+EXTRA = [
+    ("glib-exit-not-unwinding", [FUEL, [[EXIT]], [[0, R(1, 0), E(1)], [0, P()], RUN]]),
+]
+
 
 def cases():
     return [dict(key=k, name=n, case=[FUEL, b, a]) for k, n, b, a in W]
